@@ -36,7 +36,7 @@ def r12_1_total_order(ctx: Ctx) -> RuleResult:
 
 VALUE_TYPES = ["Duration", "Instant", "Offset", "LocalDate", "LocalTime", "LocalDateTime", "YearMonth", "AnnualDate", "OffsetDate", "OffsetTime",
                "OffsetDateTime", "ZonedDateTime", "Interval", "DateInterval", "Period", "_YearMonthDay", "_YearMonthDayCalendar", "ZoneInterval",
-               "_FixedDateTimeZone", "_LocalInstant", "MapZone"]
+               "_FixedDateTimeZone", "_LocalInstant", "MapZone", "Country"]
 
 # stored fields that __eq__ legitimately does not compare directly (one line of reason each)
 EQ_EXEMPT = {
@@ -169,6 +169,7 @@ def r12_2_3_eq_hash_fields(ctx: Ctx) -> RuleResult:
             continue
         rr.inst()
         bad = []
+        partial: list[str] = []
         covered_any: set[str] = set(covered)
         for nm in compared_names:
             r = resolve_key(ctx, owner, nm, False)
@@ -182,7 +183,14 @@ def r12_2_3_eq_hash_fields(ctx: Ctx) -> RuleResult:
                 r = resolve_key(ctx, owner, n.attr, False)
                 if r is None or not r <= covered_any:
                     bad.append(n.attr)
-        if bad:
+                # totality: __eq__ compares the stored fields, so every value __eq__ accepts must hash - an accessor that raises for
+                # some stored states (Interval.start of an interval without a start) makes equal values unhashable
+                acc = M.find_method(owner, mn) or M.find_method(owner, n.attr)
+                if acc is not None and acc.kind == "property" and any(isinstance(x, ast.Raise) or (isinstance(x, ast.Call) and unparse(x.func).split(".")[-1] in ("_check_state", "_check_argument", "_check_not_null")) for x in ast.walk(acc.node)):
+                    partial.append(n.attr)
+        if partial:
+            rr.fail(fh.qual, f"__hash__ reads {sorted(set(partial))} through accessor(s) that raise for some stored states, while __eq__ compares the stored fields: values that are equal cannot be hashed (an Interval without a start)", ctx.loc(fh))
+        elif bad:
             rr.fail(fh.qual, f"__hash__ reads {sorted(set(bad))}, which __eq__ does not compare (equal values may hash differently)", ctx.loc(fh))
         else:
             rr.ok({"type": tname, "hash_reads_subset_of_eq": True})
@@ -437,4 +445,50 @@ def r12_6_interned_identity(ctx: Ctx) -> RuleResult:
             rr.fail(f.qual, mt.problem, ctx.loc(f, mt.node))
         else:
             rr.ok({"interned constructor": f.qual, "how": mt.how, "components": sorted(mt.deps)})
+    return rr
+
+
+@rule("C12")
+def r12_14_packed_words_are_built_alike(ctx: Ctx) -> RuleResult:
+    """A packed field that __eq__ / __hash__ compare RAW must be the same integer whichever construction form produced it.
+    Python integers are unbounded: `x & 0xFFFFFFFF` turns the negative word of a year <= 0 into a positive one that decodes to
+    the same fields but is a different value for `==` and `hash`.  All assignments to a shift-packed field of a value class
+    therefore agree on whether (and with what) the whole word is masked."""
+    from ..kit import own_nodes
+
+    rr = RuleResult("R12.14", "every construction form of a raw-compared packed word builds the same integer: the whole-word mask (or its absence) is the same in all assignments", min_instances=2)
+    M = ctx.M
+    for tname in VALUE_TYPES:
+        c = M.cls(tname)
+        if c is None:
+            continue
+        sites: dict[str, list] = {}
+        for f in c.all_defs:
+            if isinstance(f.node, ast.Lambda):
+                continue
+            for n in own_nodes(f.node):
+                if isinstance(n, (ast.Assign, ast.AnnAssign)) and getattr(n, "value", None) is not None:
+                    for t in [n.target] if isinstance(n, ast.AnnAssign) else n.targets:
+                        if isinstance(t, ast.Attribute) and isinstance(t.value, ast.Name) and t.value.id in (f.self_name, "self") and any(isinstance(x, ast.BinOp) and isinstance(x.op, ast.LShift) for x in ast.walk(n.value)):
+                            sites.setdefault(t.attr, []).append((f, n))
+        for fld, ss in sorted(sites.items()):
+            if len(ss) < 2:
+                continue
+            rr.inst()
+
+            def mask(v):
+                if isinstance(v, ast.BinOp) and isinstance(v.op, ast.BitAnd):
+                    for side in (v.left, v.right):
+                        k = M.fold(side, c, c.mod)
+                        if isinstance(k, int):
+                            return k
+                return None
+
+            masks = [(mask(n.value), f, n) for f, n in ss]
+            kinds = {m for m, _f, _n in masks}
+            if len(kinds) == 1:
+                rr.ok({"type": tname, "field": fld, "forms": len(ss), "whole-word mask": next(iter(kinds))})
+            else:
+                odd = next((x for x in masks if x[0] is not None), masks[0])
+                rr.fail(odd[1].qual, f"`{unparse(odd[2])[:100]}` masks the whole word with {odd[0]:#x} while another construction form of `{fld}` does not: for a negative word (year <= 0) the two forms give different integers for the same fields, and `==` / `hash` compare the raw word", ctx.loc(odd[1], odd[2]))
     return rr
